@@ -27,7 +27,7 @@ def budget(tier):
 
 
 def machines(tier):
-    return [("models", MM.make_machine({"C14"}, 3 if tier == "quick" else 4, neardeg=(0, 0, 0, 4, 7, 10, 13, 20, 30)), 1.0,
+    return [("models", MM.make_machine({"C14"}, 3 if tier == "quick" else 4, neardeg=(0, 0, 0, 4, 7, 10, 13, 20, 30, -24)), 1.0,
              12 if tier == "quick" else 30)]
 
 
